@@ -69,12 +69,18 @@ func TestProp(t *testing.T) {
 	var units []unit
 	for _, j := range jobs {
 		for _, n := range lens {
+			if n > 300 && j.ki >= 2 {
+				continue // the long plaintexts with two keys per etype
+			}
 			units = append(units, unit{j, n})
 		}
 	}
 	vh.Workers(len(units), func(i int) {
 		u := units[i]
-		for _, usage := range pcommon.UsageSet {
+		for ui, usage := range pcommon.UsageSet {
+			if u.n > 300 && ui%6 != 0 {
+				continue // and every sixth usage
+			}
 			one(r, u.j.et, u.j.ki, u.j.key, u.n, usage)
 		}
 	})
